@@ -14,7 +14,7 @@ for ent in $TABLE; do
   if ! git -C "$wt" revert --no-commit "$sha" >/dev/null 2>&1; then
     echo "$sha $prop revert-conflict"; git -C /repo worktree remove --force "$wt"; continue
   fi
-  VERIF_REPO="$wt" VERIF_EVIDENCE_DIR="$OUT" VERIF_REPLAYS_DIR="$OUT" ./check "$prop" quick > "$OUT/$sha-$prop.log" 2>&1
+  VERIF_REPO="$wt" VERIF_EVIDENCE_DIR="$OUT" VERIF_REPLAYS_DIR="$OUT" ./check "$prop" "${RF_TIER:-quick}" > "$OUT/$sha-$prop.log" 2>&1
   rc=$?
   sigs=$(grep '^violation signature=' "$OUT/$sha-$prop.log" | sed 's/^violation signature=\([^:]*\):.*/\1/' | tr '\n' ' ')
   echo "$sha $prop exit=$rc $sigs"
